@@ -182,12 +182,12 @@ _bounded('C14',
          "suggested up to eta.", '4 C14')
 CHECKS['C18'] = dict(
     category='proof',
-    text="Deductive (all argument lists, all premises): the evaluation of 34 propositional veriT rules is proved "
+    text="Deductive (all argument lists, all premises): the evaluation of 37 propositional veriT rules is proved "
          "sound - whenever `eval` returns, the returned clause is true under every valuation of its atoms that makes "
          "the premise true (tautology rules: under every valuation) and carries exactly the premise's hypotheses. "
          "Rules: not_not, implies, implies_pos, implies_neg1/2, false, equiv_pos1/2, equiv_neg1/2, equiv1/2, "
          "not_equiv1/2, ite_pos1/2, ite_neg1/2, ite1/2, not_ite1/2, xor_pos1/2, xor_neg1/2, not_implies1/2, and, "
-         "or, or_neg, or_pos, not_or, eq_reflexive (quick tier), not_and (thorough tier). Under contract too: "
+         "or, or_neg, or_pos, not_or, eq_reflexive, and_pos, and_neg, contraction (quick tier), not_and (thorough tier). Under contract too: "
          "kernel.term.Or / And (right-nested connective of any number of arguments, loop invariants), "
          "Term.strip_disj / strip_conj (functional contracts), strip_disj_n, try_resolve. Semantics = spec function "
          "`pv` (conj, disj, implies, neg, xor, Boolean equality and conditional, true, false; anything else an atom) "
